@@ -15,6 +15,8 @@
 (*   InitRange      the (de)normalisation domain table                     *)
 (*   InitFix        reference points x0 |-> 0 of all pairs                 *)
 (*   InitForce      array_force_moments                                    *)
+(*   InitLlf        log-likelihood: which entries of a sample count        *)
+(*   InitBounds     target bounds of uniform / arcsine / U-quadratic       *)
 (*                                                                         *)
 (* Numbers: the discrete sections use integers in QUARTER units (4 = 1.0), *)
 (* the normalizer sections reduced rationals <<n, d>> with d > 0; NaN is   *)
@@ -42,7 +44,9 @@ CONSTANTS
   ForceVals,   \* integers the force-moments input vectors are made of
   ForceLens,   \* lengths of these vectors
   ForceMeans,  \* requested means (rationals)
-  ForceVars    \* requested variances (rationals)
+  ForceVars,   \* requested variances (rationals)
+  LlfData,     \* set of data vectors (rationals and NaN tokens) of the log-likelihood cases
+  BoundMeans, BoundVarPool, BoundAs, BoundBs   \* rationals: target-bound cases (uniform / arcsin / uquad)
 
 VARIABLE c     \* the case
 
@@ -281,6 +285,15 @@ DenormExact(norm, k, s, y) ==
     [] norm = "Modulus"     -> RMul(RI(RSgn(y)), RSub(InvPow(RAbs(y), k), RI(1)))
     [] norm = "Manly"       -> y
 
+(* the true derivative of the documented formulas: d/du PowForm(u, k) = u^(k-1) *)
+DerivExact(norm, k, s, x) ==
+  CASE norm = "BoxCox"      -> RPow(x, k - 1)
+    [] norm = "BoxCoxShift" -> RPow(RAdd(x, s), k - 1)
+    [] norm = "YeoJohnson"  -> IF RLe(RI(0), x) THEN RPow(RAdd(x, RI(1)), k - 1)
+                               ELSE RPow(RAdd(RAbs(x), RI(1)), 1 - k)
+    [] norm = "Modulus"     -> RPow(RAdd(RAbs(x), RI(1)), k - 1)
+    [] norm = "Manly"       -> RI(1)
+
 ExactCfgs ==
   {<<n, k, RI(0)>> : n \in {"BoxCox", "YeoJohnson", "Modulus", "Manly"}, k \in ExactLams}
   \cup {<<"BoxCoxShift", k, s>> : k \in ExactLams, s \in Shifts}
@@ -289,7 +302,8 @@ ExactCase(cf) ==
   LET Def(x) == NormDefined(cf[1], cf[2], cf[3], x)
       xs     == SelectSeq(XGrid, Def)
   IN  [sec |-> "exact", norm |-> cf[1], lam |-> cf[2], shift |-> cf[3], xs |-> xs,
-       ys |-> [i \in 1..Len(xs) |-> NormExact(cf[1], cf[2], cf[3], xs[i])]]
+       ys |-> [i \in 1..Len(xs) |-> NormExact(cf[1], cf[2], cf[3], xs[i])],
+       dys |-> [i \in 1..Len(xs) |-> DerivExact(cf[1], cf[2], cf[3], xs[i])]]
 
 InitNormExact ==
   c \in {ExactCase(cf) : cf \in {g \in ExactCfgs : \E i \in DOMAIN XGrid : NormDefined(g[1], g[2], g[3], XGrid[i])}}
@@ -298,6 +312,8 @@ InitNormExact ==
    inverse wherever the inverse can be evaluated exactly *)
 ExactStrictlyIncreasing ==
   c.sec = "exact" => \A i \in 1..(Len(c.ys) - 1) : RLt(c.ys[i], c.ys[i + 1])
+ExactDerivativePositive ==
+  c.sec = "exact" => \A i \in DOMAIN c.dys : RLt(RI(0), c.dys[i])
 ExactRoundTrip ==
   c.sec = "exact" =>
      \A i \in DOMAIN c.ys :
@@ -404,6 +420,63 @@ ForceMomentsExact ==
          SQ[i \in 0..n] == IF i = 0 THEN RI(0)
                            ELSE RAdd(SQ[i - 1], RMul(RSub(c.out[i], mu), RSub(c.out[i], mu)))
      IN  mu = c.mean /\ RDiv(SQ[n], RI(n)) = c.var
+
+-----------------------------------------------------------------------------
+(* C18: the log-likelihood is the maximum-likelihood value of the VALID entries of a sample:
+   NaN and out-of-range entries are "treated as NaN", i.e. they do not count:
+     loglikelihood = -n/2 (log(2 pi) + 1) - n/2 log(var(y)) + sum(log(dy/dx)),  n = number of
+   valid entries, y their normalised values.  TLC determines which entries count. *)
+LlfCase(cf, d) ==
+  LET cls   == [i \in 1..Len(d) |-> Classify(cf[1], cf[2], cf[3], "normalize", d[i])]
+      IsV(i) == cls[i] = "Valid"
+      idx   == SelectSeq([i \in 1..Len(d) |-> i], IsV)
+      valid == [j \in 1..Len(idx) |-> d[idx[j]]]
+  IN  [sec |-> "llf", norm |-> cf[1], lam |-> cf[2], shift |-> cf[3], data |-> d, cls |-> cls,
+       valid |-> valid, nValid |-> Len(valid)]
+
+InitLlf ==
+  c \in {k \in {LlfCase(cf, d) : cf \in RangeCfgs, d \in LlfData} :
+            k.nValid >= 2 /\ Cardinality(RangeOf(k.valid)) >= 2}
+
+LlfCountsValidOnly ==
+  c.sec = "llf" => /\ c.nValid = Cardinality({i \in DOMAIN c.cls : c.cls[i] = "Valid"})
+                   /\ \A j \in DOMAIN c.valid : ~IsNaN(c.valid[j])
+                         /\ InOpen(c.valid[j], NormRange(c.norm, c.shift))
+
+-----------------------------------------------------------------------------
+(* C19: target bounds.  uniform on [low, high] (defaults 0, 1); arcsine and U-quadratic on
+   [a, b] where EACH bound that is not given takes its default  mean -+ h,  h = sqrt(2 var)
+   (arcsine) resp. sqrt(5/3 var) (U-quadratic) - the bounds that keep mean and variance.
+   The quantiles 0, 1/2, 1 of the normal input map to lo, (lo + hi)/2, hi exactly. *)
+HalfWidth(method, v) == IF method = "arcsin" THEN RSqrt(RMul(RI(2), v)) ELSE RSqrt(RMul(<<5, 3>>, v))
+HasHalfWidth(method, v) == CASE method = "uniform" -> TRUE
+                             [] method = "arcsin"  -> RIsSquare(RMul(RI(2), v))
+                             [] method = "uquad"   -> RIsSquare(RMul(<<5, 3>>, v))
+
+BoundCase(method, m, v, ag, bg, a, b) ==
+  LET lo == IF ag THEN a ELSE IF method = "uniform" THEN RI(0) ELSE RSub(m, HalfWidth(method, v))
+      hi == IF bg THEN b ELSE IF method = "uniform" THEN RI(1) ELSE RAdd(m, HalfWidth(method, v))
+  IN  [sec |-> "bounds", method |-> method, mean |-> m, var |-> v, aGiven |-> ag, bGiven |-> bg,
+       a |-> a, b |-> b, lo |-> lo, hi |-> hi, mid |-> RDiv(RAdd(lo, hi), RI(2))]
+
+InitBounds ==
+  c \in {k \in {BoundCase(p[1], p[2], p[3], p[4], p[5], p[6], p[7]) :
+                  p \in {q \in {"uniform", "arcsin", "uquad"} \X BoundMeans \X BoundVarPool \X BOOLEAN \X BOOLEAN
+                               \X (BoundAs \cup {RI(0)}) \X (BoundBs \cup {RI(0)}) :
+                            /\ HasHalfWidth(q[1], q[3])
+                            /\ (q[4] => q[6] \in BoundAs) /\ (~q[4] => q[6] = RI(0))
+                            /\ (q[5] => q[7] \in BoundBs) /\ (~q[5] => q[7] = RI(0))}} :
+            RLt(k.lo, k.hi)}
+
+(* design checks: a given bound is the bound; the defaults keep mean and variance
+   (arcsine: var = (hi - lo)^2 / 8,  U-quadratic: var = 3 (hi - lo)^2 / 20) *)
+BoundsHonoured ==
+  c.sec = "bounds" => /\ (c.aGiven => c.lo = c.a) /\ (c.bGiven => c.hi = c.b)
+                      /\ (c.method # "uniform" /\ ~c.aGiven /\ ~c.bGiven) =>
+                            LET w == RSub(c.hi, c.lo)
+                            IN  /\ c.mid = c.mean
+                                /\ c.method = "arcsin" => RDiv(RMul(w, w), RI(8)) = c.var
+                                /\ c.method = "uquad"  => RDiv(RMul(RI(3), RMul(w, w)), RI(20)) = c.var
 
 -----------------------------------------------------------------------------
 Next == UNCHANGED c
